@@ -66,7 +66,8 @@ pub fn eval_hier(case: &J) -> Outcome {
 // scope
 
 /// world: table i has columns with distinct value ranges so that the bound column can be read off the output type
-const TABLES: [(&str, [&str; 3]); 3] = [("t1", ["a", "b", "c"]), ("t2", ["a", "b", "d"]), ("t3", ["a", "e", "c"])];
+/// the last two are registered under two-component paths that end in the same table name
+const TABLES: [(&str, [&str; 3]); 5] = [("t1", ["a", "b", "c"]), ("t2", ["a", "b", "d"]), ("t3", ["a", "e", "c"]), ("sa.tt", ["a", "b", "f"]), ("sb.tt", ["a", "g", "c"])];
 
 fn col_range(ti: usize, ci: usize) -> (i64, i64) { let lo = 1000 * (ti as i64 + 1) + 100 * ci as i64; (lo, lo + 50) }
 
@@ -74,8 +75,9 @@ pub fn world() -> Hierarchy<Arc<Relation>> {
     let mut h: Vec<(Vec<String>, Arc<Relation>)> = vec![];
     for (ti, (name, cols)) in TABLES.iter().enumerate() {
         let schema: qrlew::relation::Schema = cols.iter().enumerate().map(|(ci, c)| { let (lo, hi) = col_range(ti, ci); (*c, DataType::integer_interval(lo, hi)) }).collect();
-        let t: Relation = Relation::table().name(*name).schema(schema).size(100).build();
-        h.push((vec![name.to_string()], Arc::new(t)));
+        let path: Vec<String> = name.split('.').map(|x| x.to_string()).collect();
+        let t: Relation = Relation::table().name(name.replace('.', "_")).path(path.clone()).schema(schema).size(100).build();
+        h.push((path, Arc::new(t)));
     }
     h.into_iter().collect()
 }
@@ -84,7 +86,8 @@ pub fn gen_scope(rng: &mut Rng, _k: usize, _tier: &str) -> J {
     // FROM: 2 or 3 tables (possibly the same table twice under aliases)
     let n = 2 + rng.below(2) as usize;
     let mut items: Vec<(usize, String)> = vec![]; // (table index, alias)
-    for i in 0..n { let ti = rng.below(3) as usize; let alias = if rng.chance(1, 2) { format!("x{i}") } else { TABLES[ti].0.to_string() }; if items.iter().any(|(_, a)| *a == alias) { items.push((ti, format!("y{i}"))); } else { items.push((ti, alias)); } }
+    let qualified_world = rng.chance(1, 4);   // schema-qualified tables take part in a quarter of the cases
+    for i in 0..n { let ti = if qualified_world { rng.below(5) as usize } else { rng.below(3) as usize }; let alias = if rng.chance(1, 2) { format!("x{i}") } else { TABLES[ti].0.to_string() }; if items.iter().any(|(_, a)| *a == alias) { items.push((ti, format!("y{i}"))); } else { items.push((ti, alias)); } }
     let mut from = format!("{}{}", TABLES[items[0].0].0, if items[0].1 != TABLES[items[0].0].0 { format!(" AS {}", items[0].1) } else { String::new() });
     // visible columns so far: name -> list of (alias, table, col) still distinguishable; merged = names merged by USING/NATURAL
     let mut merged: Vec<String> = vec![];
@@ -109,7 +112,10 @@ pub fn gen_scope(rng: &mut Rng, _k: usize, _tier: &str) -> J {
     let rci = rng.below(3) as usize;
     let rcol = TABLES[rti].1[rci];
     let qualified = rng.chance(1, 3);
-    let reference = if qualified { format!("{ralias}.{rcol}") } else { rcol.to_string() };
+    // `partial`: a schema-qualified, unaliased table referred to by its last component only (`tt.a` for `sa.tt`)
+    let partial = qualified && ralias.contains('.') && rng.chance(1, 2);
+    let reference = if partial { format!("{}.{rcol}", ralias.rsplit('.').next().unwrap()) } else if qualified { format!("{ralias}.{rcol}") } else { rcol.to_string() };
+    let same_last = items.iter().filter(|(_, a)| a.rsplit('.').next() == ralias.rsplit('.').next()).count();
     let holders: Vec<usize> = (0..n).filter(|i| TABLES[items[*i].0].1.contains(&rcol)).collect();
     // `wildcard`: the reference is made from outside, through `SELECT *` over the join (always unqualified)
     let place = *rng.pick(&["select", "where", "group", "order", "wildcard", "wildcard"]);
@@ -123,7 +129,8 @@ pub fn gen_scope(rng: &mut Rng, _k: usize, _tier: &str) -> J {
     };
     let is_merged = merged.contains(&rcol.to_string());
     // expected: ambiguous iff unqualified, held by >1 FROM items, and not a USING/NATURAL column of *all* holders
-    let expect = if qualified { if is_merged { "any" } else { "ok" } } else if holders.len() <= 1 { "ok" } else if is_merged && holders.iter().all(|h| *h <= 1) { "ok-merged" } else { "err" };
+    let expect = if qualified && partial && same_last > 1 && is_merged { "any" } else if qualified && partial && same_last > 1 && place != "wildcard" { if holders.iter().filter(|h| items[**h].1.rsplit('.').next() == ralias.rsplit('.').next()).count() > 1 { "err" } else { "ok" } }
+        else if qualified { if is_merged { "any" } else { "ok" } } else if holders.len() <= 1 { "ok" } else if is_merged && holders.iter().all(|h| *h <= 1) { "ok-merged" } else { "err" };
     let (lo, hi) = col_range(rti, rci);
     json!({"sql": sql, "expect": expect, "place": place, "range": [lo, hi], "ref": reference})
 }
